@@ -7,12 +7,17 @@ ID=$1; STREAM=$2; shift 2
 export GOFLAGS=-mod=mod GOPROXY=off GOSUMDB=off GOTOOLCHAIN=local
 WT=/root/scratch/try-$ID-$$
 git -C /repo worktree add --detach $WT HEAD >/dev/null 2>&1
-trap 'git -C /repo worktree remove --force $WT >/dev/null 2>&1; rm -f /root/scratch/try-$ID-$$.mod /root/scratch/try-$ID-$$.sum /root/scratch/try-$ID-$$.bin /root/scratch/try-$ID-$$.json' EXIT
+trap 'git -C /repo worktree remove --force $WT >/dev/null 2>&1; rm -f /root/scratch/try-$ID-$$.mod /root/scratch/try-$ID-$$.sum /root/scratch/try-$ID-$$.bin /root/scratch/try-$ID-$$.bin-race /root/scratch/try-$ID-$$.json' EXIT
 git -C $WT apply /verif/seeded/$ID/patch.diff
 sed "s#=> /repo#=> $WT#" /verif/go/harness/go.mod > /root/scratch/try-$ID-$$.mod
 cp $WT/go.sum /root/scratch/try-$ID-$$.sum
 (cd /verif/go/harness && go build -tags verif -modfile /root/scratch/try-$ID-$$.mod -o /root/scratch/try-$ID-$$.bin .)
-/root/scratch/try-$ID-$$.bin -stream $STREAM -property X -out /root/scratch/try-$ID-$$.json "$@" 2>&1 | tail -2
+EXTRA=""
+if [ -n "$RACE" ]; then
+  (cd /verif/go/harness && go build -race -tags verif -modfile /root/scratch/try-$ID-$$.mod -o /root/scratch/try-$ID-$$.bin-race .)
+  EXTRA="-workerbin /root/scratch/try-$ID-$$.bin-race"
+fi
+/root/scratch/try-$ID-$$.bin $EXTRA -stream $STREAM -property X -out /root/scratch/try-$ID-$$.json "$@" 2>&1 | tail -2
 python3 - /root/scratch/try-$ID-$$.json <<'PY'
 import json,sys
 r=json.load(open(sys.argv[1]))
